@@ -203,3 +203,134 @@ Qed.
 
 Lemma fl_cmp_ok a b : Fin a -> Fin b -> fl_cmp a b = Some (Rcompare (RV a) (RV b)).
 Proof. intros Fa Fb. unfold fl_cmp, b32_compare. now apply Bcompare_correct. Qed.
+
+(* ---- mantissa / exponent view; casts to integers ---- *)
+Lemma fl_parts_fin z : Fin z ->
+  exists m e, fl_parts z = Some (m, e) /\ RV z = F2R (Float radix2 m e) /\
+              fl_is_nan z = false /\ fl_is_inf z = false.
+Proof.
+  unfold Fin, RV, fl_parts, fl_is_nan, fl_is_inf. destruct (of_bits z) as [s|s|s pl e|s m e e0]; try discriminate; intros _.
+  - exists 0, 0. split; [reflexivity|]. split; [|split; reflexivity]. cbn [B2R]. unfold F2R. cbn [Fnum]. now rewrite Rmult_0_l.
+  - exists (if s then Z.neg m else Z.pos m), e. split; [reflexivity|]. split; [|split; reflexivity]. cbn [B2R]. now destruct s.
+Qed.
+
+Lemma bpow2_nonneg e : 0 <= e -> bpow radix2 e = IZR (2 ^ e).
+Proof. intros H. rewrite <- (IZR_Zpower radix2 e H). reflexivity. Qed.
+
+Lemma trunc_me_ok m e : trunc_me m e = Ztrunc (F2R (Float radix2 m e)).
+Proof.
+  unfold trunc_me, F2R. cbn [Fnum Fexp]. destruct (0 <=? e) eqn:E.
+  - apply Z.leb_le in E. rewrite (bpow2_nonneg e E), <- mult_IZR, Ztrunc_IZR. reflexivity.
+  - apply Z.leb_gt in E. replace e with (- (- e)) at 2 by lia. rewrite bpow_opp, (bpow2_nonneg (- e)) by lia.
+    change (IZR m * / IZR (2 ^ (- e)))%R with (IZR m / IZR (2 ^ (- e)))%R.
+    rewrite Ztrunc_div; [reflexivity|]. pose proof (Z.pow_pos_nonneg 2 (- e)). lia.
+Qed.
+
+Lemma fl_to_int_ok lo hi z : Fin z -> fl_to_int lo hi z = Z.max lo (Z.min hi (Ztrunc (RV z))).
+Proof.
+  intros F. destruct (fl_parts_fin z F) as (m & e & Hp & Hv & Hn & Hi).
+  unfold fl_to_int. rewrite Hn, Hi, Hp, Hv, trunc_me_ok. reflexivity.
+Qed.
+
+(* what the no-panic and RAND arguments need: a value in [0, n] truncates into [0, n] *)
+Lemma fl_to_int_between lo hi z (n : Z) : Fin z -> lo <= 0 -> n <= hi -> (0 <= RV z <= IZR n)%R ->
+  0 <= fl_to_int lo hi z <= n.
+Proof.
+  intros F Hlo Hhi [H0 Hn]. rewrite (fl_to_int_ok lo hi z F).
+  pose proof (Ztrunc_le _ _ H0) as A. pose proof (Ztrunc_le _ _ Hn) as B.
+  rewrite Ztrunc_IZR in A, B. lia.
+Qed.
+
+(* f32::round keeps a value inside an integer interval [0, n] *)
+Lemma fl_round_between z (n : Z) : Fin z -> 0 <= n < 16777216 -> (0 <= RV z <= IZR n)%R ->
+  Fin (fl_round z) /\ (0 <= RV (fl_round z) <= IZR n)%R.
+Proof.
+  intros F Hn [H0 H1]. destruct (fl_parts_fin z F) as (m & e & Hp & Hv & _ & _).
+  unfold fl_round. rewrite Hp. destruct (0 <=? e) eqn:E.
+  - unfold Fin, RV in *. rewrite of_bits_mod. auto.
+  - apply Z.leb_gt in E. cbv zeta.
+    assert (Hd : 0 < 2 ^ (- e)) by (apply Z.pow_pos_nonneg; lia).
+    set (d := 2 ^ (- e)) in *.
+    assert (Hv' : RV z = (IZR m / IZR d)%R).
+    { rewrite Hv. unfold F2R. cbn [Fnum Fexp]. replace e with (- (- e)) at 1 by lia.
+      rewrite bpow_opp, (bpow2_nonneg (- e)) by lia. reflexivity. }
+    assert (Dpos : (0 < IZR d)%R) by (apply IZR_lt; lia).
+    assert (Hm0 : 0 <= m).
+    { apply le_IZR. rewrite Hv' in H0. apply Rmult_le_compat_r with (r := IZR d) in H0; [|lra].
+      unfold Rdiv in H0. rewrite Rmult_assoc, Rinv_l, Rmult_1_r, Rmult_0_l in H0 by lra. exact H0. }
+    assert (Hm1 : m <= n * d).
+    { apply le_IZR. rewrite mult_IZR. rewrite Hv' in H1. apply Rmult_le_compat_r with (r := IZR d) in H1; [|lra].
+      unfold Rdiv in H1. rewrite Rmult_assoc, Rinv_l, Rmult_1_r in H1 by lra. exact H1. }
+    replace (m <? 0) with false by (symmetry; apply Z.ltb_ge; exact Hm0).
+    rewrite Z.abs_eq by exact Hm0.
+    rewrite Z.quot_div_nonneg by lia.
+    set (q := (2 * m + d) / (2 * d)).
+    assert (Hq : 0 <= q <= n).
+    { split; [apply Z.div_pos; lia|]. apply Z.lt_succ_r. apply Z.div_lt_upper_bound; lia. }
+    assert (Hr : rnd32 (F2R (Float radix2 q 0)) = IZR q) by (rewrite F2R_int; apply rnd_int; lia).
+    destruct (norm32_ok q 0 (fl_sign z) 16777216) as (A & B & _); [|lia|].
+    + rewrite Hr, <- abs_IZR. apply IZR_le. lia.
+    + cbv zeta in A, B. split; [exact A|]. rewrite B, Hr. split; apply IZR_le; lia.
+Qed.
+
+(* ---- comparison on all non-NaN floats: an embedding into the reals ---- *)
+Definition xr (x : binary32) : R :=
+  match x with
+  | B754_infinity _ _ s => if s then (- bpow radix2 128)%R else bpow radix2 128
+  | _ => B2R 24 128 x
+  end.
+
+Lemma xr_fin x : is_finite 24 128 x = true -> xr x = B2R 24 128 x.
+Proof. now destruct x. Qed.
+
+Lemma xr_fin_bound x : is_finite 24 128 x = true -> (- bpow radix2 128 < xr x < bpow radix2 128)%R.
+Proof.
+  intros F. rewrite (xr_fin x F). pose proof (abs_B2R_lt_emax 24 128 x) as H.
+  apply Rabs_lt_inv in H. lra.
+Qed.
+
+Lemma b32_compare_xr x y : is_nan 24 128 x = false -> is_nan 24 128 y = false ->
+  b32_compare x y = Some (Rcompare (xr x) (xr y)).
+Proof.
+  intros Nx Ny. pose proof (bpow_gt_0 radix2 128) as P.
+  destruct (is_finite 24 128 x) eqn:Fx, (is_finite 24 128 y) eqn:Fy.
+  - rewrite (xr_fin x Fx), (xr_fin y Fy). now apply Bcompare_correct.
+  - pose proof (xr_fin_bound x Fx) as Bx. unfold xr in *. remember (bpow radix2 128) as M.
+    destruct y as [s|[|]|s pl e|s m e e0]; try discriminate;
+    destruct x as [sx|sx|sx plx ex|sx mx ex e0x]; try discriminate; symmetry;
+    (unfold b32_compare, Bcompare; cbn in *; f_equal; first [apply Rcompare_Lt; lra | apply Rcompare_Gt; lra]).
+  - pose proof (xr_fin_bound y Fy) as By. unfold xr in *. remember (bpow radix2 128) as M.
+    destruct x as [s|[|]|s pl e|s m e e0]; try discriminate;
+    destruct y as [sy|sy|sy ply ey|sy my ey e0y]; try discriminate; symmetry;
+    (unfold b32_compare, Bcompare; cbn in *; f_equal; first [apply Rcompare_Lt; lra | apply Rcompare_Gt; lra]).
+  - unfold xr. remember (bpow radix2 128) as M.
+    destruct x as [s|[|]|s pl e|s m e e0]; try discriminate;
+    destruct y as [sy|[|]|sy ply ey|sy my ey e0y]; try discriminate; symmetry;
+    (unfold b32_compare, Bcompare; cbn; f_equal;
+     first [apply Rcompare_Eq; lra | apply Rcompare_Lt; lra | apply Rcompare_Gt; lra]).
+Qed.
+
+Lemma b32_compare_nan x y : is_nan 24 128 x = true \/ is_nan 24 128 y = true -> b32_compare x y = None.
+Proof.
+  intros [H|H].
+  - destruct x; try discriminate. reflexivity.
+  - destruct y; try discriminate. destruct x; reflexivity.
+Qed.
+
+Lemma fl_is_nan_spec z : fl_is_nan z = is_nan 24 128 (of_bits z).
+Proof. unfold fl_is_nan. now destruct (of_bits z). Qed.
+
+Definition XR (z : Z) : R := xr (of_bits z).
+
+Lemma fl_cmp_xr a b : fl_is_nan a = false -> fl_is_nan b = false ->
+  fl_cmp a b = Some (Rcompare (XR a) (XR b)).
+Proof. rewrite !fl_is_nan_spec. intros. now apply b32_compare_xr. Qed.
+
+Lemma fl_cmp_nan a b : fl_is_nan a = true \/ fl_is_nan b = true -> fl_cmp a b = None.
+Proof. rewrite !fl_is_nan_spec. apply b32_compare_nan. Qed.
+
+Lemma fl_cmp_some a b c : fl_cmp a b = Some c -> fl_is_nan a = false /\ fl_is_nan b = false.
+Proof.
+  intros H. destruct (fl_is_nan a) eqn:A; [rewrite fl_cmp_nan in H by auto; discriminate|].
+  destruct (fl_is_nan b) eqn:B; [rewrite fl_cmp_nan in H by auto; discriminate|]. auto.
+Qed.
